@@ -36,9 +36,9 @@ package client
 //@ pred cLite(c *Client) = c != nil && c.cfg != nil && c.conn != nil && c.transactions != nil && storeInv(c.transactions) &&
 //@      c.registeredTopics != nil && c.messageHandlers != nil && c.state != nil && c.cancel != nil && c.msgID != nil && c.log != nil && cfgFits(c.cfg)
 // A-CLIENTCFG (assumed about the application's configuration, not checked by the library): identifiers and will data fit into one datagram.
-//@ pred cfgFits(cfg *ClientConfig) = len(cfg.ClientID) <= 8184 && len(cfg.WillTopic) <= 8187 && len(cfg.WillPayload) <= 8188 &&
+//@ pred cfgFits(cfg *ClientConfig) = len(cfg.ClientID) >= 1 && len(cfg.ClientID) <= 8184 && len(cfg.WillTopic) <= 8187 && len(cfg.WillPayload) <= 8188 &&
 //@      len(cfg.User) + len(cfg.Password) <= 8000 && cfg.RetryCount < 0xFFFFFFFF
-//@ assumption [C17,C23,C25,C31] A-CLIENTCFG: the application's ClientConfig holds a client ID, will topic/message and credentials that fit into one MQTT-SN datagram, and RetryCount < 2^32 (cfgFits; the library does not check them)
+//@ assumption [C17,C23,C25,C31] A-CLIENTCFG: the application's ClientConfig holds a non-empty client ID and a client ID, will topic/message and credentials that fit into one MQTT-SN datagram, and RetryCount < 2^32 (cfgFits; the library does not check them)
 
 // ---- sending (C17, C23, C25) ----
 //@ func (*Client).send
@@ -211,6 +211,7 @@ package client
 //@   nopanic [C25]
 //@   tags [C23]
 //@   requires [C25] inv: apiInv(c)
+//@   requires [C23] known_topic_id_type: topicIDType <= 2
 //@   rely [C25] inv: apiInv(c)
 //@   rely [C25] exchange_structure_immutable: clEntryWF(c, tx)
 //@   rely [C17] traces_append_only: c.tryN >= old(c.tryN) && (forall i int :: i < old(c.tryN) ==> c.try[i] == old(c.try[i]))
@@ -230,6 +231,7 @@ package client
 //@   nopanic [C25]
 //@   tags [C23]
 //@   requires [C25] inv: apiInv(c)
+//@   requires [C23] known_topic_id_type: topicIDType <= 2
 //@   rely [C25] inv: apiInv(c)
 //@   rely [C25] exchange_structure_immutable: clEntryWF(c, tx)
 //@   at Store.0 before let tx = arg(2)
@@ -353,12 +355,24 @@ package client
 //@   at publish.0 before assert [C32] predefined_id_as_given: arg(1) == 1 && arg(2) == topicID
 //@ func (*Client).Subscribe
 //@   nopanic [C25]
+//@   tags [C23]
 //@   requires [C25] inv: apiInv(c)
 //@   assigns *
 //@   at subscribe.0 before assert [C32] short_topic_as_its_two_octets: arg(2) == 2 && arg(3) == (uint16(topic[0]) << 8) | uint16(topic[1])
 //@   at subscribe.1 before assert [C32] longer_topic_by_name: arg(1) == topic && arg(2) == 0
 //@ func (*Client).SubscribePredefined
 //@   nopanic [C25]
+//@   tags [C23]
 //@   requires [C25] inv: apiInv(c)
 //@   assigns *
 //@   at subscribe.0 before assert [C32] predefined_id_as_given: arg(2) == 1 && arg(3) == topicID
+//@ func (*Client).Unsubscribe
+//@   nopanic [C25]
+//@   tags [C23]
+//@   requires [C25] inv: apiInv(c)
+//@   assigns *
+//@ func (*Client).UnsubscribePredefined
+//@   nopanic [C25]
+//@   tags [C23]
+//@   requires [C25] inv: apiInv(c)
+//@   assigns *
